@@ -522,6 +522,17 @@ func runLoopCase(ci interface{}, rec *pbt.Rec) *pbt.Failure {
 			case err == nil:
 				accepted++
 				w.cur = next
+				// the set now in force must be able to authorise anything at all: with all of its members signing, the
+				// contract's (absolute) threshold has to be passed - the hub normalises the powers of a set to 2^32
+				if len(next.Powers) > 0 {
+					tot := new(big.Int)
+					for _, p := range next.Powers {
+						tot.Add(tot, p)
+					}
+					if tot.Cmp(big.NewInt(contractThreshold)) <= 0 {
+						return pbt.Failf("adopted-set-below-threshold", "signer set %d, published by the hub and adopted by the contract, has a total power of %s: even with every member signing, the contract's threshold %d cannot be passed any more", ss.Nonce, tot, contractThreshold)
+					}
+				}
 				if m := fmt.Sprint(next.Vals); m != lastMembers {
 					setChanges++
 					lastMembers = m
